@@ -1,5 +1,13 @@
 package main
 
+import (
+	"fmt"
+	"go/ast"
+	"go/printer"
+	"strconv"
+	"strings"
+)
+
 // g8: KES constants and leaf arithmetic (C39), regenerated from /repo on every run.
 func init() {
 	registerGen(func() {
@@ -17,4 +25,206 @@ func init() {
 	})
 	registerGoLite(goLiteFunc{pkg: "kes", name: "MaxPeriod", leanName: "kesMaxPeriod"})
 	registerGoLite(goLiteFunc{pkg: "kes", name: "SignatureSize", leanName: "kesSignatureSize"})
+}
+
+// ---- round 2: step order and length checks read off the source (C46, C40)
+
+func g8Render(e ast.Expr) string {
+	var sb strings.Builder
+	if err := printer.Fprint(&sb, fset, e); err != nil {
+		fatal("render: %v", err)
+	}
+	return sb.String()
+}
+
+// g8CallOrder lists, in source order, the methods of the receiver variable called in fn.
+func g8CallOrder(pkg, recv, fn string) []string {
+	fd := findFunc(loadPkg(pkg), recv, fn)
+	if fd == nil || fd.Recv == nil || len(fd.Recv.List[0].Names) == 0 {
+		fatal("g8CallOrder: %s.%s.%s not found", pkg, recv, fn)
+	}
+	rv := fd.Recv.List[0].Names[0].Name
+	var out []string
+	ast.Inspect(fd.Body, func(n ast.Node) bool {
+		if ce, ok := n.(*ast.CallExpr); ok {
+			if se, ok := ce.Fun.(*ast.SelectorExpr); ok {
+				if id, ok := se.X.(*ast.Ident); ok && id.Name == rv {
+					out = append(out, se.Sel.Name)
+				}
+			}
+		}
+		return true
+	})
+	return out
+}
+
+// g8LenChecks lists the comparisons `len(x) <op> <const>` of fn in source order.
+func g8LenChecks(pkg, recv, fn string) [][3]string {
+	fd := findFunc(loadPkg(pkg), recv, fn)
+	if fd == nil {
+		fatal("g8LenChecks: %s.%s.%s not found", pkg, recv, fn)
+	}
+	var out [][3]string
+	ast.Inspect(fd.Body, func(n ast.Node) bool {
+		be, ok := n.(*ast.BinaryExpr)
+		if !ok {
+			return true
+		}
+		ce, ok := be.X.(*ast.CallExpr)
+		if !ok {
+			return true
+		}
+		if id, ok := ce.Fun.(*ast.Ident); !ok || id.Name != "len" || len(ce.Args) != 1 {
+			return true
+		}
+		out = append(out, [3]string{g8Render(ce.Args[0]), be.Op.String(), g8Render(be.Y)})
+		return true
+	})
+	return out
+}
+
+// g8FieldLiteral finds `field: <literal>` inside the composite literal returned by fn.
+func g8FieldLiteral(pkg, fn, field string) string {
+	fd := findFunc(loadPkg(pkg), "", fn)
+	if fd == nil {
+		fatal("g8FieldLiteral: %s.%s not found", pkg, fn)
+	}
+	val := ""
+	ast.Inspect(fd.Body, func(n ast.Node) bool {
+		if kv, ok := n.(*ast.KeyValueExpr); ok {
+			if id, ok := kv.Key.(*ast.Ident); ok && id.Name == field {
+				val = g8Render(kv.Value)
+			}
+		}
+		return true
+	})
+	if val == "" {
+		fatal("g8FieldLiteral: %s.%s has no field %s", pkg, fn, field)
+	}
+	return val
+}
+
+// g8Conds lists the rendered conditions of the if statements of fn in source order.
+func g8Conds(pkg, recv, fn string) []string {
+	fd := findFunc(loadPkg(pkg), recv, fn)
+	if fd == nil {
+		fatal("g8Conds: %s.%s.%s not found", pkg, recv, fn)
+	}
+	var out []string
+	ast.Inspect(fd.Body, func(n ast.Node) bool {
+		if is, ok := n.(*ast.IfStmt); ok {
+			c := strings.Join(strings.Fields(g8Render(is.Cond)), " ")
+			if c == "verifEnabled" { // hook call sites are not part of the model
+				return false
+			}
+			out = append(out, c)
+		}
+		return true
+	})
+	return out
+}
+
+// g8Calls lists, in source order, the plain (unqualified) functions called in fn.
+func g8Calls(pkg, recv, fn string) []string {
+	fd := findFunc(loadPkg(pkg), recv, fn)
+	if fd == nil {
+		fatal("g8Calls: %s.%s.%s not found", pkg, recv, fn)
+	}
+	var out []string
+	ast.Inspect(fd.Body, func(n ast.Node) bool {
+		if ce, ok := n.(*ast.CallExpr); ok {
+			if id, ok := ce.Fun.(*ast.Ident); ok && id.Name != "verifTrace" && id.Name != "len" && id.Name != "make" && id.Name != "append" && id.Name != "copy" {
+				out = append(out, id.Name)
+			}
+		}
+		return true
+	})
+	return out
+}
+
+func g8LeanStrList(xs []string) string {
+	q := make([]string, len(xs))
+	for i, x := range xs {
+		q[i] = strconv.Quote(x)
+	}
+	return "[" + strings.Join(q, ", ") + "]"
+}
+
+func g8LeanTriples(xs [][3]string) string {
+	q := make([]string, len(xs))
+	for i, x := range xs {
+		q[i] = fmt.Sprintf("(%s, %s, %s)", strconv.Quote(x[0]), strconv.Quote(x[1]), strconv.Quote(x[2]))
+	}
+	return "[" + strings.Join(q, ", ") + "]"
+}
+
+func init() {
+	registerGen(func() {
+		l := newLean("DmqAuthFacts")
+		l.pf("namespace GV.Gen.DmqAuthFacts\n")
+		l.pf("/-- methods of the authenticator called by verifyMessageInternal, in source order -/\n")
+		l.pf("def steps : List String := %s\n", g8LeanStrList(g8CallOrder("protocol/common", "MessageAuthenticator", "verifyMessageInternal")))
+		for _, fn := range []string{"verifyMessageID", "verifyOperationalCertificate", "verifyKESSignature"} {
+			l.pf("def %s_lens : List (String × String × String) := %s\n", fn, g8LeanTriples(g8LenChecks("protocol/common", "MessageAuthenticator", fn)))
+		}
+		l.pf("def rotationConds : List String := %s\n", g8LeanStrList(g8Conds("protocol/common", "MessageAuthenticator", "verifyKESPeriodRotation")))
+		l.pf("def internalConds : List String := %s\n", g8LeanStrList(g8Conds("protocol/common", "MessageAuthenticator", "verifyMessageInternal")))
+		l.pf("def slotsPerKesPeriod : String := %s\n", strconv.Quote(g8FieldLiteral("protocol/common", "NewMessageAuthenticator", "slotsPerKesPeriod")))
+		l.pf("end GV.Gen.DmqAuthFacts\n")
+
+		h := newLean("HeaderFacts")
+		h.pf("namespace GV.Gen.HeaderFacts\n")
+		h.pf("/-- the checks ValidateHeader runs, in source order -/\n")
+		h.pf("def checks : List String := %s\n", g8LeanStrList(g8CallOrder("consensus", "HeaderValidator", "ValidateHeader")))
+		for _, fn := range []string{"verifyCertifiedVRF", "validateKESSignature", "validateOpCertSignature", "validateVRFKeyRegistration"} {
+			h.pf("def %s_lens : List (String × String × String) := %s\n", fn, g8LeanTriples(g8LenChecks("consensus", "HeaderValidator", fn)))
+		}
+		h.pf("def kesPeriodConds : List String := %s\n", g8LeanStrList(g8Conds("consensus", "HeaderValidator", "validateKESPeriod")))
+		h.pf("def slotConds : List String := %s\n", g8LeanStrList(g8Conds("consensus", "HeaderValidator", "validateSlotOrdering")))
+		h.pf("def blockNoConds : List String := %s\n", g8LeanStrList(g8Conds("consensus", "HeaderValidator", "validateBlockNumber")))
+		h.pf("def prevHashConds : List String := %s\n", g8LeanStrList(g8Conds("consensus", "HeaderValidator", "validatePrevHash")))
+		h.pf("def kesComponentsConds : List String := %s\n", g8LeanStrList(g8Conds("ledger", "", "VerifyKesComponents")))
+		h.pf("def buildHeader_lens : List (String × String × String) := %s\n", g8LeanTriples(g8LenChecks("consensus", "BlockBuilder", "BuildHeader")))
+		h.pf("end GV.Gen.HeaderFacts\n")
+
+		k := newLean("KesFacts")
+		k.pf("namespace GV.Gen.KesFacts\n")
+		k.pf("/-- the conditions of the if statements of the KES functions, in source order -/\n")
+		for _, f := range [][3]string{{"", "Sign", "signConds"}, {"", "signInternal", "signInternalConds"},
+			{"", "Update", "updateConds"}, {"", "updateInternal", "updateInternalConds"},
+			{"SumXKesSig", "Verify", "verifyConds"}, {"", "NewSumKesFromBytes", "parseConds"},
+			{"", "keyGenInternal", "keyGenInternalConds"}, {"", "secretKeySize", "secretKeySizeConds"}} {
+			k.pf("def %s : List String := %s\n", f[2], g8LeanStrList(g8Conds("kes", f[0], f[1])))
+		}
+		k.pf("end GV.Gen.KesFacts\n")
+
+		w := newLean("WitnessFacts")
+		w.pf("namespace GV.Gen.WitnessFacts\n")
+		w.pf("def signaturesCalls : List String := %s\n", g8LeanStrList(g8Calls("ledger/common", "", "UtxoValidateSignatures")))
+		w.pf("def verifyVKeySignature_lens : List (String × String × String) := %s\n", g8LeanTriples(g8LenChecks("ledger/common", "", "VerifyVKeySignature")))
+		w.pf("def bootstrap_lens : List (String × String × String) := %s\n", g8LeanTriples(g8LenChecks("ledger/common", "", "ValidateBootstrapWitnesses")))
+		w.pf("def byronRoot_lens : List (String × String × String) := %s\n", g8LeanTriples(g8LenChecks("ledger/common", "", "computeByronAddressRoot")))
+		w.pf("def collateral_lens : List (String × String × String) := %s\n", g8LeanTriples(g8LenChecks("ledger/common", "", "ValidateCollateralVKeyWitnesses")))
+		w.pf("def required_lens : List (String × String × String) := %s\n", g8LeanTriples(g8LenChecks("ledger/common", "", "ValidateRequiredVKeyWitnesses")))
+		w.pf("def inputConds : List String := %s\n", g8LeanStrList(g8Conds("ledger/common", "", "ValidateInputVKeyWitnesses")))
+		w.pf("def collateralConds : List String := %s\n", g8LeanStrList(g8Conds("ledger/common", "", "ValidateCollateralVKeyWitnesses")))
+		w.pf("end GV.Gen.WitnessFacts\n")
+
+		v := newLean("VrfFacts")
+		v.pf("namespace GV.Gen.VrfFacts\n")
+		v.pf("def verifyAndHashConds : List String := %s\n", g8LeanStrList(g8Conds("vrf", "", "VerifyAndHash")))
+		v.pf("def verifyConds : List String := %s\n", g8LeanStrList(g8Conds("vrf", "", "verify")))
+		v.pf("def verifyCalls : List String := %s\n", g8LeanStrList(g8Calls("vrf", "", "verify")))
+		v.pf("def proveCalls : List String := %s\n", g8LeanStrList(g8Calls("vrf", "", "Prove")))
+		v.pf("def decodeConds : List String := %s\n", g8LeanStrList(g8Conds("vrf", "", "decodeProofArrays")))
+		v.pf("end GV.Gen.VrfFacts\n")
+
+		emitConsts("VrfConsts", [][3]string{
+			{"vrf", "ProofSize", "proofSize"},
+			{"vrf", "OutputSize", "outputSize"},
+			{"vrf", "PublicKeySize", "publicKeySize"},
+			{"vrf", "SeedSize", "seedSize"},
+			{"vrf", "Suite", "suite"},
+		})
+	})
 }
